@@ -11,3 +11,5 @@ import CheetahModel.Properties.C01
 #print axioms C01.parameter_beam_semantics_lawful
 #print axioms C01.particle_beam
 #print axioms C01.parameter_beam
+#print axioms C01.skippability_table
+#print axioms C01.energy_changing_or_nonlinear_not_skippable
